@@ -166,6 +166,47 @@ async fn run_case<TC: Configuration>(cc: &CaseCtx, case: &HistCase, l: &mut Loca
             }
         }
     }
+    // ---- read-fault sweep: a lookup that returns Ok must still verify to the model (a storage read that
+    // fails during proof generation has to surface as an error, never as a proof of something else)
+    let epoch = w.model.epoch;
+    if epoch >= 1 && cc.idx % 4 == 0 {
+        let want_eh = EpochHash(epoch, w.published[epoch as usize]);
+        for label in w.model.labels().into_iter().take(2) {
+            w.db.ctl.reset_counters();
+            if w.dir.lookup(AkdLabel(label.clone())).await.is_err() {
+                break;
+            }
+            let n_ops = w.db.ctl.n_ops();
+            for k in 1..=n_ops {
+                w.db.ctl.reset_counters();
+                w.db.ctl.set_fault(Some(crate::xdb::fail_at(k, false, k % 2 == 0)));
+                let r = w.dir.lookup(AkdLabel(label.clone())).await;
+                let reached = w.db.ctl.injected.load(std::sync::atomic::Ordering::SeqCst) > 0;
+                w.db.ctl.set_fault(None);
+                if !reached {
+                    continue;
+                }
+                l.eval(1);
+                l.count("lookups_with_injected_read_fault", 1);
+                match r {
+                    Err(_) => l.count("faulted_lookups_refused", 1),
+                    Ok((p, eh)) => {
+                        let ok = eh == want_eh && matches!((w.verify_lookup(&eh, &label, p), w.model.latest(&label, epoch)), (Ok(vr), Some(m)) if ver_matches(m, &vr));
+                        if ok {
+                            l.count("faulted_lookups_still_correct", 1);
+                        } else {
+                            l.violation(
+                                "C02:read-fault-swallowed",
+                                format!("storage read {k} of {n_ops} failed during lookup, yet lookup returned Ok with a proof that does not verify to the latest value"),
+                                json!({"cfg": case.cfg.name(), "cache": case.cache.name(), "label": hx(&label), "failed_read": k, "of": n_ops, "history": history_json(&case.hist.batches)}),
+                            );
+                            return;
+                        }
+                    }
+                }
+            }
+        }
+    }
     l.sample(json!({"case": cc.id, "cfg": case.cfg.name(), "cache": case.cache.name(), "epochs": w.model.epoch,
         "labels": case.hist.universe.len(), "first_batches": history_json(&case.hist.batches[..case.hist.batches.len().min(3)])}));
 }
